@@ -142,6 +142,23 @@ Theorem C04_frames_independent :
 Proof. exact srun_frames. Qed.
 Print Assumptions C04_frames_independent.
 
+(* The cursor never inspects a row.  Run the same history on a frame whose rows are the images of l
+   under ANY function f (not injective: rows may become equal; constant: all rows are the one empty
+   tuple; rows may be falsy, None, of no columns): every call returns exactly the image of what it
+   returned on l - the same number of rows at every fetch, the same end-of-data answers, the same
+   refusals.  So truthiness, equality, hashing or column count of a row cannot enter the contract,
+   and every theorem above transfers from a frame with pairwise distinct rows to any frame. *)
+Theorem C04_rows_never_inspected :
+  forall (A B : Type) (f : A -> B) (l : list A) (ops : list (op A)),
+  snd (run (init_eager (map f l)) (map (map_op f) ops)) = map (map_out f) (snd (run (init_eager l) ops)) /\
+  snd (run (init_lazy (map f l)) (map (map_op f) ops)) = map (map_out f) (snd (run (init_lazy l) ops)).
+Proof.
+  intros A B f l ops. split.
+  - change (init_eager (map f l)) with (map_st f (init_eager l)). now rewrite run_map.
+  - change (init_lazy (map f l)) with (map_st f (init_lazy l)). now rewrite run_map.
+Qed.
+Print Assumptions C04_rows_never_inspected.
+
 (* Lazily backed frame read only through the cursor (failed append calls allowed: they leave
    the generator alone): fetched ++ not-yet-yielded is the
    original row sequence (so the fetched rows are a prefix, in order, none skipped or
@@ -190,3 +207,10 @@ Example C04_nonvacuous_session :
      SOut ORaise; SOut (ORows [13]%Z)] /\
   sel 0 ops = [FetchOne; ObserveView (VRows 0 None); FetchMany (Some 2%Z); FetchAll].
 Proof. split; [repeat constructor|split; reflexivity]. Qed.
+
+(* Non-vacuity for C04_rows_never_inspected: with f constant (every row the same empty tuple, here tt)
+   fetchmany still returns min(k, remaining) rows and the history ends with None / []. *)
+Example C04_nonvacuous_equal_rows :
+  snd (run (init_eager [tt; tt; tt]) [FetchMany (Some 2%Z); FetchOne; FetchMany (Some 2%Z); FetchOne; FetchAll]) =
+    [ORows [tt; tt]; ORow (Some tt); ORows []; ORow None; ORows []].
+Proof. reflexivity. Qed.
